@@ -247,6 +247,9 @@ class E2:
                     elif a.is_const(): r = c.scale(a.c)
                     elif c.is_const(): r = a.scale(c.c)
                     else: r = Lin.atom(("mul",) + tuple(sorted((a.key(), c.key()), key=repr)))
+                    if op == "mul" and bits < 64 and not r.is_const():
+                        # a symbolic product formed in a narrow type: exact only while it stays below 2^bits (checked by the caller)
+                        self.__dict__.setdefault("narrow_products", []).append((i, bits, (a if c.is_const() else c), (c.c if c.is_const() else (a.c if a.is_const() else None))))
                     if r.is_const(): r = Lin.const(r.c & ((1 << bits) - 1))
                     env[i.id] = r; continue
                 # arithmetic on symbolic bits: result unknown, but stays within the documented value range (see property)
